@@ -21,6 +21,10 @@ def _work(item):
         _, cfgs, props, max_exec, max_dev = item
         outs = [e3.explore_config_e3((c, props, max_exec, max_dev)) for c in cfgs]
         return ('e3', outs)
+    if kind == 'hash':
+        from . import hashseed
+        _, prop_, fam, seed_ = item
+        return ('hash', [dict(hashseed.run_slice(prop_, fam, seed_), fam=fam, seed=seed_)])
     if kind == 'real':
         from . import e4
         _, cases, props = item
@@ -61,7 +65,7 @@ def chunks(seq: list, size: int):
 
 def run_e2_property(prop: str, tier: str, seed: int, configs: Iterable, *, serial_configs: Iterable = (),
                     e3_configs: Iterable = (), e3_max_exec: Optional[int] = 20000, e3_max_dev: Optional[int] = None,
-                    real_cases: Iterable = (),
+                    real_cases: Iterable = (), hash_slices: Iterable = (),
                     props: Optional[Sequence[str]] = None, max_exec_per_cfg: Optional[int] = None,
                     rule: str = '', assumptions: Sequence[str] = (), chunk: int = 40,
                     extra_cov: Optional[dict] = None) -> Result:
@@ -78,6 +82,9 @@ def run_e2_property(prop: str, tier: str, seed: int, configs: Iterable, *, seria
     real_cases = list(real_cases)
     items = [('real', real_cases[i:i + 2], props) for i in range(0, len(real_cases), 2)] + items
     real_runs = real_validated = real_maxc = 0
+    items = [('hash', prop, fam, sd) for fam, sd in hash_slices] + items
+    hash_exec = 0
+    hash_done = []
     executions = states = transitions = 0
     n_cfg = 0
     capped = 0
@@ -108,6 +115,13 @@ def run_e2_property(prop: str, tier: str, seed: int, configs: Iterable, *, seria
                     busiest = {'cfg': o['cfg'], 'executions': o['executions'], 'states': o['states']}
                 if len(samples) < 4 and o['executions'] > 1:
                     samples.append({'cfg': o['cfg'], 'schedules_explored': o['executions'], 'states': o['states']})
+        elif kind == 'hash':
+            for o in outs:
+                hash_exec += o['executions']
+                hash_done.append({'family': o['fam'], 'PYTHONHASHSEED': o['seed'], 'executions': o['executions'], 'configurations': o['configs']})
+                for key, msg, rp in o['viols']:
+                    viols.append(Violation(prop=prop, key=f'hashseed:{key}', what=f'[fresh interpreter, PYTHONHASHSEED={o["seed"]}, string-salted tasks] {msg}',
+                                           replay=dict(rp, hashseed=o['seed']), size=900))
         elif kind == 'real':
             for o in outs:
                 real_runs += 1
@@ -140,11 +154,13 @@ def run_e2_property(prop: str, tier: str, seed: int, configs: Iterable, *, seria
         'states': states,
         'transitions': transitions,
         'traces_validated_against_impl': validated + real_validated,
+        'hash_seed_slices': hash_done,
+        'executions_in_other_hash_seeds': hash_exec,
         'real_fork_spawn_runs': real_runs,
         'real_fork_spawn_traces_accepted_by_model': real_validated,
         'real_max_concurrency_observed': real_maxc,
         'samples': samples,
-        'evaluations': executions + serial_runs,
+        'evaluations': executions + serial_runs + hash_exec + real_runs,
         'distinct_nontrivial': n_cfg,
         'rule': rule or 'one evaluation = one complete run_tasks execution under one choice sequence; '
                         'distinct_nontrivial = distinct configurations (DAG x request x pre-cache x faults) explored',
